@@ -246,7 +246,8 @@ def check(ctx):
         for s in inv.attr_stores(P, attr):
             o4.count()
             k = (s.cls.name if s.cls else None, s.func.name if s.func else None)
-            if not (k == ('Event', '__init__') or (k[0] == 'Environment' and k[1] in owners)):
+            # (owners: the operation itself, its private helpers, and a state transition of Event that only the operation calls)
+            if not (k == ('Event', '__init__') or (k[0] in ('Environment', 'Event') and k[1] in owners)):
                 o4.fail(P, s.ctx, s.stmt, f'Event.{attr} is written outside its owners', file=s.mod.path, line=s.line)
             else:
                 o4.witness((attr,) + k)
